@@ -161,6 +161,22 @@ MUTANTS = [
      "        if self.length % Self::BIT_UNIT != 0 {\n            let i = self.length / Self::BIT_UNIT;\n            let b = (self.data[i] >> (self.length % Self::BIT_UNIT - 1)) & I::ONE;",
      "        if self.length > 0 {\n            let i = self.length / Self::BIT_UNIT;\n            let b = (self.data[i] >> (self.length % Self::BIT_UNIT - 1)) & I::ONE;",
      {"C05": ("DECR", "shl_in")}),
+    ("M38-bvf-get-int-guard-inclusive", "src/fixed.rs",
+     "        if idx * J::BITS < self.length {\n            IArray::get_int::<J>(self.data.as_ref(), idx)\n                .map(|v| v & J::mask(self.length - idx * J::BITS))",
+     "        if idx * J::BITS <= self.length {\n            IArray::get_int::<J>(self.data.as_ref(), idx)\n                .map(|v| v & J::mask(self.length - idx * J::BITS))",
+     {"C03": ("DEFS", "get_int"), "C09": ("DEFS", "get_int")}),
+    ("M39-bvf-get-int-mask-uses-storage-word-width", "src/fixed.rs",
+     "                .map(|v| v & J::mask(self.length - idx * J::BITS))\n        } else {\n            None\n        }\n    }\n}\n\nimpl<I: Integer, const N: usize> IArrayMut",
+     "                .map(|v| v & J::mask(self.length - idx * I::BITS))\n        } else {\n            None\n        }\n    }\n}\n\nimpl<I: Integer, const N: usize> IArrayMut",
+     {"C03": ("DEFS", "get_int")}),
+    ("M40-u32-mask-inclusive-bound", "src/utils.rs",
+     "impl Integer for u32 {\n    fn mask(length: usize) -> Self {\n        if length < Self::BITS as usize {",
+     "impl Integer for u32 {\n    fn mask(length: usize) -> Self {\n        if length <= Self::BITS as usize {",
+     {"C01": ("SIB", "SLOT mask u32")}),
+    ("M41-u32-leading-zeros-counts-from-the-wrong-end", "src/utils.rs",
+     "        u32::leading_zeros(*self) as usize",
+     "        u32::trailing_zeros(*self) as usize",
+     {"C10": ("SIB", "SLOT leading_zeros u32")}),
     ("M30-bv-hash-branches-on-mode", "src/auto.rs",
      "        for i in 0..(self.significant_bits() + 63) / 64 {\n            self.get_int::<u64>(i).unwrap().hash(state);\n        }",
      "        match self {\n            Bv::Fixed(b) => b.hash(state),\n            Bv::Dynamic(b) => b.hash(state),\n        }",
